@@ -142,7 +142,55 @@ def _case(ctx, cap, ns, pytree_obs, idx, full_batches=False):
                          impl={"slots": slot_tags[e], "pos": pos[e], "cur": cur[e]}, model=m)
 
 
+def check_full_batches_many_keys(ctx):
+    """a stacked per-environment buffer whose FIRST environment is almost empty, sampled with batch size =
+    number of stored transitions under very many keys: there is exactly one admissible batch (all stored
+    rows), so a sampler in which a stored row can tie with the unwritten ones on a rare draw (an exact 0.0
+    of a uniform variate has probability 2^-23) hands out an unwritten row.  Counted per key on device."""
+    cap = 2048
+    obs_space, act_space = _spaces(False)
+    ns = [1, cap + 3]
+
+    @eqx.filter_jit
+    def add_many(buf, tags):
+        return jax.lax.scan(lambda b, t: (b.add(**_row(t, False)), None), buf, tags)[0]
+
+    bufs = [add_many(ReplayBuffer(cap, obs_space, act_space, CountState(jnp.array(0, dtype=int))),
+                     e * 100000 + 1 + jnp.arange(n)) for e, n in enumerate(ns)]
+    stacked = jax.tree.map(lambda *xs: jnp.stack(xs), *bufs)
+    stored = 1 + cap
+    stored_tags = np.sort(np.asarray(stacked.rewards, np.float64).reshape(-1))[-stored:]
+
+    @eqx.filter_jit
+    def unwritten_in_batches(keys):
+        def one(k):
+            b = stacked.sample(stored, key=k)
+            # tags are >= 1 in written slots and 0 in never-written ones; every stored tag exactly once
+            return jnp.sum(b.rewards == 0), jnp.sum(b.rewards)
+        return jax.vmap(one)(keys)
+
+    chunk, chunks = 1024, ctx.budget(32, 256)
+    want_sum = float(stored_tags.sum())
+    base = jr.key(int(ctx.rng.integers(0, 2**31)))
+    for c in range(chunks):
+        keys = jr.split(jr.fold_in(base, c), chunk)
+        zeros, sums = unwritten_in_batches(keys)
+        zeros = np.asarray(zeros); sums = np.asarray(sums, np.float64)
+        ctx.count("full-batch-keys", chunk)
+        ctx.case({"many-keys-chunk": c}, True)
+        bad = np.nonzero(zeros > 0)[0]
+        if len(bad):
+            j = int(bad[0])
+            ctx.phi_fail("sampled_rows_were_inserted",
+                         {"kind": "replay-many-keys", "cap": cap, "ns": ns, "batch_size": stored, "chunk": c, "key_index": j,
+                          "unwritten_rows_in_batch": int(zeros[j]),
+                          "replay": "jr.split(jr.fold_in(base, chunk), 1024)[key_index]"},
+                         key="replay:unwritten-row-sampled")
+            break
+
+
 def run(ctx):
+    check_full_batches_many_keys(ctx)
     rng = ctx.rng
     caps = ctx.budget([1, 2, 3, 5, 8, 16], [1, 2, 3, 4, 5, 7, 8, 13, 16, 32, 64, 128])
     idx = 0
